@@ -255,6 +255,14 @@ void sync_point(int kind, const volatile void *addr, size_t size) {
   sync_point_impl(kind, addr, size);
 }
 
+void post_point(int, const volatile void *, size_t) {
+  // scheduling point after a modifying atomic operation: lets another thread
+  // run between the operation and the plain code that follows it
+  if (!g_active || !tl_state || !sched.post_points || tl_state->blocking)
+    return;
+  sync_point_impl(OP_PLAIN, nullptr, 0);
+}
+
 void blocking_begin() {
   if (g_active && tl_state)
     tl_state->blocking = true;
